@@ -30,7 +30,7 @@ func init() {
 			"R20-order — the searcher list has the preload searcher before the path searcher; OpenPackage publishes the same loaders/loaded tables under package.* and in the registry; RegisterModule stores the module both in _LOADED[name] and under its global name; PreloadModule writes package.preload[name]; the preload searcher reads package.preload. " +
 			"NOT decided: at-most-once under arbitrary histories, error text contents.",
 		Trusted: []string{},
-		Rules:   []func(*Ctx){ruleModuleNameDots, ruleSentinel, ruleOrder, ruleModulePublishes, ruleSearchersReadOnly, ruleRegisterModuleAdds, ruleFindTableRaw},
+		Rules:   []func(*Ctx){rulePackageTableInRegistry, ruleModuleNameDots, ruleSentinel, ruleOrder, ruleModulePublishes, ruleSearchersReadOnly, ruleRegisterModuleAdds, ruleFindTableRaw},
 	})
 }
 
